@@ -200,6 +200,10 @@ pub struct Sut {
     pub cmp_mask: u32,
     /// ops since the last flush phase reset (for coverage accounting)
     pub steps: u64,
+    /// when > 0, every n-th reopen goes through a plain `build()` (no key pair, no open flag) on
+    /// the existing storage instead of `open(true)`: the stored key and state must win
+    pub plain_reopen_every: u64,
+    pub reopens: u64,
 }
 
 impl Sut {
@@ -219,6 +223,8 @@ impl Sut {
             get_cap: 64,
             cmp_mask: CMP_ALL,
             steps: 0,
+            plain_reopen_every: 0,
+            reopens: 0,
         })
     }
 
@@ -228,7 +234,9 @@ impl Sut {
 
     pub fn reopen(&mut self) -> Result<(), Fail> {
         self.core = None;
-        match build_core(&self.world, None, true, self.cache) {
+        self.reopens += 1;
+        let plain = self.plain_reopen_every > 0 && self.reopens % self.plain_reopen_every == 0;
+        match build_core(&self.world, None, !plain, self.cache) {
             Ok(Ok(c)) => {
                 self.core = Some(c);
                 Ok(())
